@@ -2,7 +2,7 @@ CONSTANTS
   Parent <- Tree6
   Mode = "dep"
   NNames = 4
-  WithSelf = TRUE
+  WithSelf = FALSE
   PlaceIn = {3}
   SelfPlaces = {}
   KeyOrders = "two"
